@@ -63,6 +63,7 @@ class Run:
         self.seed_base = seed_base
         self.problems = []
         self.refused = []           # (op index, message)
+        self.expected_refusals = []     # op indexes of calls that had to be refused and were
         self.skipped = []           # (op index, reason)
         self.applied = []           # op indices applied to both
         self.images = []            # (step, bytes) for every write/reopen op
@@ -157,14 +158,24 @@ class Run:
             call_mode = None
         else:
             args = ()
+        must_refuse = call.note is not None and call.note[0] == 'must-refuse'
         try:
             getattr(self.iso, method)(*args, **kwargs)
         except pex.PyCdlibInvalidInput as e:
+            if must_refuse:
+                self.model.classes.add('refused-as-it-must/%s/%s' % (method, call.note[1]))
+                self.expected_refusals.append(i)
+                return 'refused-as-expected'
             self.refused.append((i, '%s: %s' % (method, e)))
             return 'refused'
         except Exception as e:  # noqa
             self.problem('op/%s/exception/%s' % (method, exc_signature(e)), 'edit-raised',
                          '%s(%s) raised %s: %s' % (method, _short(kwargs), type(e).__name__, e))
+            self.dead = True
+            return 'dead'
+        if must_refuse:
+            self.problem('op/%s/accepted-but-must-refuse/%s' % (method, call.note[1]), 'must-refuse',
+                         '%s(%s) was accepted although %s' % (method, _short(kwargs), call.note[1]))
             self.dead = True
             return 'dead'
         saved = None
